@@ -27,12 +27,13 @@ Notation lit_den' := (lit_den (F:=F) st).
 
 
 (* unfolding equations across the mutual fixpoints *)
-Lemma fold_tree_node (fb : op -> lit F -> lit F -> option (lit F)) tag cs :
-  fold_tree fb (TNode tag cs) = let (cs', e) := fold_trees fb cs in (TNode tag cs', e).
+Lemma fold_tree_node (fb : op -> lit F -> lit F -> option (lit F)) keep tag cs :
+  fold_tree fb keep (TNode tag cs) =
+  let (cs', e) := fold_trees fb (N.eqb tag cond_tag) cs in (TNode tag cs', e).
 Proof. reflexivity. Qed.
-Lemma fold_trees_cons (fb : op -> lit F -> lit F -> option (lit F)) t r :
-  fold_trees fb (TCons t r) =
-  let (t', e1) := fold_tree fb t in let (r', e2) := fold_trees fb r in (TCons t' r', (e1 + e2)%N).
+Lemma fold_trees_cons (fb : op -> lit F -> lit F -> option (lit F)) kf t r :
+  fold_trees fb kf (TCons t r) =
+  let (t', e1) := fold_tree fb kf t in let (r', e2) := fold_trees fb false r in (TCons t' r', (e1 + e2)%N).
 Proof. reflexivity. Qed.
 Lemma den_node tag cs : den' (TNode tag cs) = node_sem tag (dens' cs).
 Proof. reflexivity. Qed.
@@ -94,43 +95,46 @@ Hypothesis fb_sound : forall o a b v,
   fb o a b = Some v -> arith' o (lit_den' a) (lit_den' b) = lit_den' v.
 
 Lemma fold_den_both :
-  (forall t, den' (fst (fold_tree fb t)) = den' t) /\
-  (forall ts, dens' (fst (fold_trees fb ts)) = dens' ts).
+  (forall t keep, den' (fst (fold_tree fb keep t)) = den' t) /\
+  (forall ts kf, dens' (fst (fold_trees fb kf ts)) = dens' ts).
 Proof.
   apply tree_trees_ind.
   - reflexivity.
   - reflexivity.
-  - intros o l IHl r IHr. cbn [fold_tree].
-    destruct (fold_tree fb l) as [l' el]. destruct (fold_tree fb r) as [r' er].
+  - intros o l IHl r IHr keep. cbn [fold_tree].
+    specialize (IHl false). specialize (IHr false).
+    destruct (fold_tree fb false l) as [l' el]. destruct (fold_tree fb false r) as [r' er].
     cbn [fst] in IHl, IHr.
     assert (Hdef : den' (TBin o l' r') = den' (TBin o l r)).
     { cbn [den]. rewrite IHl, IHr. reflexivity. }
+    destruct keep; [exact Hdef|].
     destruct l' as [a| | | |]; try exact Hdef.
     destruct r' as [b| | | |]; try exact Hdef.
     destruct (fb o a b) as [v|] eqn:Ef; [|exact Hdef].
     cbn [fst]. rewrite <- Hdef. cbn [den]. symmetry. apply fb_sound. exact Ef.
-  - intros tag cs IH. rewrite fold_tree_node. destruct (fold_trees fb cs) as [cs' e].
+  - intros tag cs IH keep. rewrite fold_tree_node. specialize (IH (N.eqb tag cond_tag)).
+    destruct (fold_trees fb (N.eqb tag cond_tag) cs) as [cs' e].
     cbn [fst] in *. rewrite !den_node. f_equal. exact IH.
   - reflexivity.
   - reflexivity.
-  - intros t IHt ts IHts. rewrite fold_trees_cons.
-    destruct (fold_tree fb t) as [t' e1]. destruct (fold_trees fb ts) as [ts' e2].
+  - intros t IHt ts IHts kf. rewrite fold_trees_cons. specialize (IHt kf). specialize (IHts false).
+    destruct (fold_tree fb kf t) as [t' e1]. destruct (fold_trees fb false ts) as [ts' e2].
     cbn [fst] in *. rewrite !dens_cons. f_equal; assumption.
 Qed.
 
-Lemma fold_tree_den t : den' (fst (fold_tree fb t)) = den' t.
+Lemma fold_tree_den keep t : den' (fst (fold_tree fb keep t)) = den' t.
 Proof. apply fold_den_both. Qed.
 
 Lemma fold_prog_den t t' : fold_prog fb t = Some t' -> den' t' = den' t.
 Proof.
-  unfold fold_prog. pose proof (fold_tree_den t) as H.
-  destruct (fold_tree fb t) as [t1 e]. cbn [fst] in H.
+  unfold fold_prog. pose proof (fold_tree_den false t) as H.
+  destruct (fold_tree fb false t) as [t1 e]. cbn [fst] in H.
   destruct (e =? 0)%N; [|discriminate]. intros E. injection E as <-. exact H.
 Qed.
 
 End WithFb.
 
-Lemma fold_expr_preserves t : den' (fst (fold_tree (fold_bin fo) t)) = den' t.
+Lemma fold_expr_preserves keep t : den' (fst (fold_tree (fold_bin fo) keep t)) = den' t.
 Proof. apply fold_tree_den. intros. apply fold_bin_sound. assumption. Qed.
 
 Lemma fold_prog_preserves (set_line : N -> st -> st) p p' :
@@ -152,69 +156,78 @@ Let fb := fold_bin fo.
 
 (* a `/` or `%` both of whose operands are constant (fold to literals) and
    whose divisor's constant is zero (Int 0, Float +0 or -0) *)
-Inductive zero_div : tree F -> Prop :=
+(* a `/` or `%` that is not itself a block's condition, both of whose operands
+   are constant (fold to literals) and whose divisor's constant is zero
+   (Int 0, Float +0 or -0).  The flag says: this node is a block's condition. *)
+Inductive zero_div : bool -> tree F -> Prop :=
 | ZD_here o l r a b :
-    fst (fold_tree fb l) = TLit a -> fst (fold_tree fb r) = TLit b ->
-    is_divmod o = true -> lit_is_zero fo b = true -> zero_div (TBin o l r)
-| ZD_left o l r : zero_div l -> zero_div (TBin o l r)
-| ZD_right o l r : zero_div r -> zero_div (TBin o l r)
-| ZD_node tag cs : zero_divs cs -> zero_div (TNode tag cs)
-with zero_divs : trees F -> Prop :=
-| ZD_head t ts : zero_div t -> zero_divs (TCons t ts)
-| ZD_tail t ts : zero_divs ts -> zero_divs (TCons t ts).
+    fst (fold_tree fb false l) = TLit a -> fst (fold_tree fb false r) = TLit b ->
+    is_divmod o = true -> lit_is_zero fo b = true -> zero_div false (TBin o l r)
+| ZD_left keep o l r : zero_div false l -> zero_div keep (TBin o l r)
+| ZD_right keep o l r : zero_div false r -> zero_div keep (TBin o l r)
+| ZD_node keep tag cs : zero_divs (N.eqb tag cond_tag) cs -> zero_div keep (TNode tag cs)
+with zero_divs : bool -> trees F -> Prop :=
+| ZD_head kf t ts : zero_div kf t -> zero_divs kf (TCons t ts)
+| ZD_tail kf t ts : zero_divs false ts -> zero_divs kf (TCons t ts).
 
 Lemma fold_errors_both :
-  (forall t, snd (fold_tree fb t) <> 0%N <-> zero_div t) /\
-  (forall ts, snd (fold_trees fb ts) <> 0%N <-> zero_divs ts).
+  (forall t keep, snd (fold_tree fb keep t) <> 0%N <-> zero_div keep t) /\
+  (forall ts kf, snd (fold_trees fb kf ts) <> 0%N <-> zero_divs kf ts).
 Proof.
   apply tree_trees_ind.
-  - intros l. cbn. split; [congruence|inversion 1].
-  - intros i. cbn. split; [congruence|inversion 1].
-  - intros o l IHl r IHr. cbn [fold_tree].
-    destruct (fold_tree fb l) as [l' el] eqn:El. destruct (fold_tree fb r) as [r' er] eqn:Er.
+  - intros l keep. cbn. split; [congruence|inversion 1].
+  - intros i keep. cbn. split; [congruence|inversion 1].
+  - intros o l IHl r IHr keep. cbn [fold_tree].
+    specialize (IHl false). specialize (IHr false).
+    destruct (fold_tree fb false l) as [l' el] eqn:El. destruct (fold_tree fb false r) as [r' er] eqn:Er.
     cbn [snd] in IHl, IHr.
-    assert (Hsub : (el + er)%N <> 0%N -> zero_div (TBin o l r)).
+    assert (Hsub : (el + er)%N <> 0%N -> zero_div keep (TBin o l r)).
     { intros H. destruct (N.eq_dec el 0) as [->|Hl].
       - apply ZD_right, IHr. lia.
       - apply ZD_left, IHl. exact Hl. }
-    assert (Hinv : zero_div (TBin o l r) ->
+    assert (Hinv : zero_div keep (TBin o l r) ->
                    (el + er)%N <> 0%N \/
-                   exists a b, l' = TLit a /\ r' = TLit b /\ is_divmod o = true /\ lit_is_zero fo b = true).
+                   (keep = false /\ exists a b, l' = TLit a /\ r' = TLit b /\ is_divmod o = true /\ lit_is_zero fo b = true)).
     { inversion 1; subst.
-      - right. rewrite El in *. rewrite Er in *. cbn [fst] in *. eauto 8.
-      - left. apply IHl in H1. lia.
-      - left. apply IHr in H1. lia. }
-    assert (Hdef : snd (TBin o l' r', (el + er)%N) <> 0%N -> zero_div (TBin o l r)) by exact Hsub.
+      - right. rewrite El in *. rewrite Er in *. cbn [fst] in *. eauto 10.
+      - left. match goal with H : zero_div false l |- _ => apply IHl in H end. lia.
+      - left. match goal with H : zero_div false r |- _ => apply IHr in H end. lia. }
+    destruct keep.
+    { cbn [snd]. split; [exact Hsub|]. intros H. apply Hinv in H as [H|[H _]]; [exact H|discriminate]. }
+    assert (Hdef : snd (TBin o l' r', (el + er)%N) <> 0%N -> zero_div false (TBin o l r)) by exact Hsub.
     destruct l' as [a| | | |];
-      try (split; [exact Hdef | intros H; apply Hinv in H as [H|(a0 & b0 & Ha & _)]; [exact H|discriminate]]).
+      try (split; [exact Hdef | intros H; apply Hinv in H as [H|(_ & a0 & b0 & Ha & _)]; [exact H|discriminate]]).
     destruct r' as [b| | | |];
-      try (split; [exact Hdef | intros H; apply Hinv in H as [H|(a0 & b0 & _ & Hb & _)]; [exact H|discriminate]]).
+      try (split; [exact Hdef | intros H; apply Hinv in H as [H|(_ & a0 & b0 & _ & Hb & _)]; [exact H|discriminate]]).
     destruct (fb o a b) as [v|] eqn:Ef.
-    + split; [exact Hsub|]. cbn [snd]. intros H. apply Hinv in H as [H|(a0 & b0 & Ha & Hb & Hd & Hz)]; [exact H|].
+    + split; [exact Hsub|]. cbn [snd]. intros H. apply Hinv in H as [H|(_ & a0 & b0 & Ha & Hb & Hd & Hz)]; [exact H|].
       injection Ha as <-. injection Hb as <-.
       assert (fb o a b = None) as Hn by (apply fold_bin_none; auto). congruence.
     + cbn [snd]. split; [|lia]. intros _.
       apply fold_bin_none in Ef as [Hd Hz].
       apply ZD_here with a b; auto; [rewrite El|rewrite Er]; reflexivity.
-  - intros tag cs IH. rewrite fold_tree_node. destruct (fold_trees fb cs) as [cs' e].
+  - intros tag cs IH keep. rewrite fold_tree_node. specialize (IH (N.eqb tag cond_tag)).
+    destruct (fold_trees fb (N.eqb tag cond_tag) cs) as [cs' e].
     cbn [snd] in *. split.
     + intros H. apply ZD_node, IH, H.
     + inversion 1; subst. apply IH. assumption.
-  - intros tag t _. cbn. split; [congruence|inversion 1].
-  - cbn. split; [congruence|inversion 1].
-  - intros t IHt ts IHts. rewrite fold_trees_cons.
-    destruct (fold_tree fb t) as [t' e1]. destruct (fold_trees fb ts) as [ts' e2].
+  - intros tag t _ keep. cbn. split; [congruence|inversion 1].
+  - intros kf. cbn. split; [congruence|inversion 1].
+  - intros t IHt ts IHts kf. rewrite fold_trees_cons. specialize (IHt kf). specialize (IHts false).
+    destruct (fold_tree fb kf t) as [t' e1]. destruct (fold_trees fb false ts) as [ts' e2].
     cbn [snd] in *. split.
     + intros H. destruct (N.eq_dec e1 0) as [->|H1].
       * apply ZD_tail, IHts. lia.
       * apply ZD_head, IHt, H1.
-    + inversion 1; subst; [apply IHt in H1|apply IHts in H1]; lia.
+    + inversion 1; subst;
+        [match goal with H : zero_div _ _ |- _ => apply IHt in H end
+        |match goal with H : zero_divs _ _ |- _ => apply IHts in H end]; lia.
 Qed.
 
-Lemma fold_prog_none_iff t : fold_prog fb t = None <-> zero_div t.
+Lemma fold_prog_none_iff t : fold_prog fb t = None <-> zero_div false t.
 Proof.
-  unfold fold_prog. pose proof (proj1 fold_errors_both t) as H.
-  destruct (fold_tree fb t) as [t' e]. cbn [snd] in H.
+  unfold fold_prog. pose proof (proj1 fold_errors_both t false) as H.
+  destruct (fold_tree fb false t) as [t' e]. cbn [snd] in H.
   destruct (N.eqb_spec e 0) as [->|Hne].
   - split; [discriminate|]. intros Z. apply H in Z. congruence.
   - split; [|reflexivity]. intros _. apply H, Hne.
@@ -239,7 +252,7 @@ with has_izds (ts : trees F) : bool :=
   match ts with TNil => false | TCons t r => has_izd t || has_izds r end.
 
 (* the (source) tree has a CondStmt whose condition is a constant arithmetic
-   expression: not a literal, but folding to one *)
+   expression: not a literal, but folding to one under the OLD folder *)
 Fixpoint has_const_cond (t : tree F) : bool :=
   match t with
   | TLit _ | TLeaf _ | TNoWalk _ _ => false
@@ -248,7 +261,7 @@ Fixpoint has_const_cond (t : tree F) : bool :=
       has_const_conds cs ||
       (N.eqb tag cond_tag &&
        match cs with
-       | TCons c _ => negb (is_lit c) && is_lit (fst (fold_tree fb c))
+       | TCons c _ => negb (is_lit c) && is_lit (fst (fold_tree_old fb c))
        | TNil => false
        end)
   end
@@ -259,73 +272,65 @@ Lemma has_izd_node tag cs : has_izd (TNode tag cs) = has_izds cs.
 Proof. reflexivity. Qed.
 Lemma has_izds_cons t r : has_izds (TCons t r) = has_izd t || has_izds r.
 Proof. reflexivity. Qed.
-Lemma has_const_cond_node tag cs :
-  has_const_cond (TNode tag cs) =
-  has_const_conds cs ||
-  (N.eqb tag cond_tag &&
-   match cs with
-   | TCons c _ => negb (is_lit c) && is_lit (fst (fold_tree fb c))
-   | TNil => false
-   end).
-Proof. reflexivity. Qed.
-Lemma has_const_conds_cons t r :
-  has_const_conds (TCons t r) = has_const_cond t || has_const_conds r.
-Proof. reflexivity. Qed.
+
+Lemma keep_is_lit t : is_lit (fst (fold_tree fb true t)) = is_lit t.
+Proof.
+  destruct t; try reflexivity.
+  - cbn [fold_tree]. destruct (fold_tree fb false t1), (fold_tree fb false t2). reflexivity.
+  - rewrite fold_tree_node. destruct (fold_trees fb _ cs). reflexivity.
+Qed.
 
 Lemma shape_both :
-  (forall t, shape_ok' t = true -> has_const_cond t = false ->
-             has_izd (fst (fold_tree fb t)) = false ->
-             shape_ok' (fst (fold_tree fb t)) = true) /\
-  (forall ts, shapes_ok' ts = true -> has_const_conds ts = false ->
-              has_izds (fst (fold_trees fb ts)) = false ->
-              shapes_ok' (fst (fold_trees fb ts)) = true).
+  (forall t keep, shape_ok' t = true ->
+             has_izd (fst (fold_tree fb keep t)) = false ->
+             shape_ok' (fst (fold_tree fb keep t)) = true) /\
+  (forall ts kf, shapes_ok' ts = true ->
+              has_izds (fst (fold_trees fb kf ts)) = false ->
+              shapes_ok' (fst (fold_trees fb kf ts)) = true).
 Proof.
   apply tree_trees_ind.
   - reflexivity.
   - reflexivity.
-  - intros o l IHl r IHr Hs Hc. cbn [fold_tree].
-    pose proof (fold_expr_preserves l) as Dl.
-    destruct (fold_tree fb l) as [l' el] eqn:El. destruct (fold_tree fb r) as [r' er] eqn:Er.
+  - intros o l IHl r IHr keep Hs. cbn [fold_tree].
+    specialize (IHl false). specialize (IHr false).
+    pose proof (fold_expr_preserves false l) as Dl.
+    destruct (fold_tree fb false l) as [l' el] eqn:El. destruct (fold_tree fb false r) as [r' er] eqn:Er.
     cbn [fst] in *.
     cbn [shape_ok] in Hs. apply andb_true_iff in Hs as [Hs _]. apply andb_true_iff in Hs as [Hsl Hsr].
-    cbn [has_const_cond] in Hc. apply orb_false_iff in Hc as [Hcl Hcr].
     assert (Hdef : has_izd (TBin o l' r') = false -> shape_ok' (TBin o l' r') = true).
     { cbn [has_izd shape_ok]. intros H. apply orb_false_iff in H as [H Hz].
       apply orb_false_iff in H as [Hl Hr].
-      rewrite (IHl Hsl Hcl Hl), (IHr Hsr Hcr Hr), Hz. reflexivity. }
+      rewrite (IHl Hsl Hl), (IHr Hsr Hr), Hz. reflexivity. }
+    destruct keep; [exact Hdef|].
     destruct l' as [a| | | |]; try exact Hdef.
     destruct r' as [b| | | |]; try exact Hdef.
     destruct (fb o a b); [reflexivity|exact Hdef].
-  - intros tag cs IH Hs Hc. rewrite fold_tree_node.
-    destruct (fold_trees fb cs) as [cs' e] eqn:Ec. cbn [fst] in *.
+  - intros tag cs IH keep Hs. rewrite fold_tree_node. specialize (IH (N.eqb tag cond_tag)).
+    destruct (fold_trees fb (N.eqb tag cond_tag) cs) as [cs' e] eqn:Ec. cbn [fst] in *.
     rewrite shape_ok_node in Hs. apply andb_true_iff in Hs as [Hs Hcond].
-    rewrite has_const_cond_node in Hc. apply orb_false_iff in Hc as [Hc Hcc].
-    rewrite has_izd_node, shape_ok_node. intros Hz. rewrite (IH Hs Hc Hz). cbn [andb].
-    destruct (N.eqb tag cond_tag); [|reflexivity].
+    rewrite has_izd_node, shape_ok_node. intros Hz. rewrite (IH Hs Hz). cbn [andb].
+    destruct (N.eqb tag cond_tag) eqn:Et; [|reflexivity].
     destruct cs as [|c rest].
     + cbn in Ec. injection Ec as <- _. reflexivity.
-    + rewrite fold_trees_cons in Ec.
-      destruct (fold_tree fb c) as [c' e1]. destruct (fold_trees fb rest) as [rest' e2].
-      injection Ec as <- _. cbn [fst andb] in Hcc. rewrite Hcond in Hcc. cbn [andb] in Hcc.
-      rewrite Hcc. reflexivity.
-  - intros tag t _ Hs _ _. exact Hs.
+    + rewrite fold_trees_cons in Ec. pose proof (keep_is_lit c) as Hk.
+      destruct (fold_tree fb true c) as [c' e1]. destruct (fold_trees fb false rest) as [rest' e2].
+      injection Ec as <- _. cbn [fst] in Hk. rewrite Hk. exact Hcond.
+  - intros tag t _ keep Hs _. exact Hs.
   - reflexivity.
-  - intros t IHt ts IHts Hs Hc. rewrite fold_trees_cons.
-    destruct (fold_tree fb t) as [t' e1]. destruct (fold_trees fb ts) as [ts' e2].
+  - intros t IHt ts IHts kf Hs. rewrite fold_trees_cons. specialize (IHt kf). specialize (IHts false).
+    destruct (fold_tree fb kf t) as [t' e1]. destruct (fold_trees fb false ts) as [ts' e2].
     cbn [fst] in *. rewrite shapes_ok_cons in Hs. apply andb_true_iff in Hs as [H1 H2].
-    rewrite has_const_conds_cons in Hc. apply orb_false_iff in Hc as [C1 C2].
     rewrite has_izds_cons, shapes_ok_cons. intros Hz. apply orb_false_iff in Hz as [Z1 Z2].
-    rewrite (IHt H1 C1 Z1), (IHts H2 C2 Z2). reflexivity.
+    rewrite (IHt H1 Z1), (IHts H2 Z2). reflexivity.
 Qed.
 
 Lemma shape_after_fold t :
-  shape_ok' t = true -> shape_ok' (fst (fold_tree fb t)) = false ->
-  has_izd (fst (fold_tree fb t)) = true \/ has_const_cond t = true.
+  shape_ok' t = true -> shape_ok' (fst (fold_tree fb false t)) = false ->
+  has_izd (fst (fold_tree fb false t)) = true.
 Proof.
   intros Hs Hf.
-  destruct (has_izd (fst (fold_tree fb t))) eqn:Hz; [left; reflexivity|].
-  destruct (has_const_cond t) eqn:Hc; [right; reflexivity|].
-  rewrite (proj1 shape_both t Hs Hc Hz) in Hf. discriminate.
+  destruct (has_izd (fst (fold_tree fb false t))) eqn:Hz; [reflexivity|].
+  rewrite (proj1 shape_both t false Hs Hz) in Hf. discriminate.
 Qed.
 
 End Shape.
